@@ -153,15 +153,19 @@ def run_both(ctx, warun, src, tag):
     return wst, wout.splitlines(), gst, gout.splitlines()
 
 
-PROBES = [
-    # (key, what, go source body, expectation note) — the Lean witnesses of Props/C01.lean, replayed on the real compiler
-    ("shift-count-ge-width", "shift count >= register width uses WebAssembly's modulo count (Lean: shl_i32_count_ge_32_wrong etc.)",
-     "func s1(x int32, n uint32) int32 { return x << n }\nfunc s2(x int32, n uint32) int32 { return x >> n }\n"
-     "func s3(x int64, n uint64) int64 { return x << n }\nfunc s4(x uint8, n uint32) uint8 { return x >> n }\n"
-     "func main() {\n\tprintln(s1(5, 33))\n\tprintln(s2(-8, 33))\n\tprintln(s3(7, 65))\n\tprintln(s4(200, 33))\n}\n"),
-    ("quo-minint-by-minus1", "MinInt / -1 traps (i32.div_s / i64.div_s overflow) where Go yields MinInt (Lean: quo_i32_minint_wrong)",
-     "func q(x, y int32) int32 { return x / y }\nfunc main() {\n\tvar m int32 = -2147483647\n\tm--\n\tprintln(q(m, -1))\n}\n"),
-]
+def probes():
+    """the recorded Wa-vs-Go divergences (gen/findings.py, kind D = genuine defect) as labelled probe programs;
+    each is replayed on the real compiler every run: still present -> violation keyed finding:<name> (listed in
+    known_findings.json or repaired), gone -> nothing."""
+    from gen import findings
+    out = []
+    for f in findings.FINDINGS:
+        if f["kind"] != "D":
+            continue
+        key = {"probe:shift_ge_width": "shift-count-ge-width", "probe:minint_div_neg1": "quo-minint-by-minus1"}.get(
+            f["probe"], "finding:" + f["probe"].replace("probe:", ""))
+        out.append((key, f["title"], f["program"]))
+    return out
 
 
 def replay(ctx, warun):
@@ -250,8 +254,9 @@ def run(ctx):
             ctx.proof["broken"].append({"theorem": "correspondence: regenerated row + WasmNum semantics vs real execution",
                                         "why": "%s: real Wa run gives %s, Lean model gives %s" % (op, a, b)})
     # 4. the Lean witnesses of the false full-strength statements, replayed on the real compiler
+    PROBES = probes()
     for key, what, body in PROBES:
-        wst, wl, gst, gl = run_both(ctx, warun, "package main\n\n" + body, "probe_" + key)
+        wst, wl, gst, gl = run_both(ctx, warun, body, "probe_" + re.sub(r"\W+", "_", key))
         if gst != "ok":
             raise vlib.InfraError("go run of probe %s failed: %s" % (key, gl))
         if wst != "ok" or [l.strip() for l in wl] != [l.strip() for l in gl]:
